@@ -100,13 +100,13 @@ def decode(it, spec, terms, assume=True):
         return VTuple(items), terms
     if spec in ("int", "nat"):
         if spec == "nat" and assume and not it.st.spec:
-            it.S.add(terms[0] >= 0)
+            it.sadd(terms[0] >= 0)
         return VInt(terms[0]), terms[1:]
     if spec == "bool":
         return VBool(terms[0]), terms[1:]
     if spec == "str":
         if assume:
-            it.S.add(terms[1] >= 0)
+            it.sadd(terms[1] >= 0)
         return VStr(arr=terms[0], lo=z3.IntVal(0), hi=terms[1]), terms[2:]
     if spec == "dyn":
         return VDyn(terms[0]), terms[1:]
